@@ -61,34 +61,34 @@ type Axiom struct {
 }
 
 type Contract struct {
-	Pkg       string
-	Func      string // "(*T).M", "T.M", "F", "F$1"
-	ParamsOvr []string
-	Props     []string
-	Requires  []Clause
-	Ensures   []Clause
+	Pkg            string
+	Func           string // "(*T).M", "T.M", "F", "F$1"
+	ParamsOvr      []string
+	Props          []string
+	Requires       []Clause
+	Ensures        []Clause
 	TrustedEnsures []Clause
-	LoopInv   map[int][]Clause
-	Modifies  []Clause
-	ModAll    bool // default for unknown callee; contracts default to modifies nothing unless declared
-	HasMod    bool
-	Checks    map[string]bool
-	Inline    bool
-	Trusted   bool // contract is assumed, body not verified (extern / interface / stated)
-	TrustWhy  string
-	Lemma     bool
-	AtCalls   []AtCall
-	Asserts   []AtCall // reserved
-	Census    []Census
-	Guarded   []string
-	Arith     string
-	AllocLimit *Clause
-	GhostSets  []GhostSet
-	GhostInits []GhostSet
-	Unroll    map[int]int
-	File      string
-	Line      int
-	Notes     []string
+	LoopInv        map[int][]Clause
+	Modifies       []Clause
+	ModAll         bool // default for unknown callee; contracts default to modifies nothing unless declared
+	HasMod         bool
+	Checks         map[string]bool
+	Inline         bool
+	Trusted        bool // contract is assumed, body not verified (extern / interface / stated)
+	TrustWhy       string
+	Lemma          bool
+	AtCalls        []AtCall
+	Asserts        []AtCall // reserved
+	Census         []Census
+	Guarded        []string
+	Arith          string
+	AllocLimit     *Clause
+	GhostSets      []GhostSet
+	GhostInits     []GhostSet
+	Unroll         map[int]int
+	File           string
+	Line           int
+	Notes          []string
 }
 
 // Census: "calls to Callee inside this package happen only in the listed functions".
@@ -100,13 +100,13 @@ type Census struct {
 }
 
 type ContractSet struct {
-	ByKey  map[string]*Contract // pkgpath + "::" + Func
-	Ghosts map[string]*GhostFunc
-	Axioms []*Axiom
-	Census []*PkgCensus
-	Files  []string
-	GuardDecls [][2]string // pkg, "Type.mu: f1, f2"
-	ctxPkg     string
+	ByKey       map[string]*Contract // pkgpath + "::" + Func
+	Ghosts      map[string]*GhostFunc
+	Axioms      []*Axiom
+	Census      []*PkgCensus
+	Files       []string
+	GuardDecls  [][2]string // pkg, "Type.mu: f1, f2"
+	ctxPkg      string
 	GhostFields map[string]*GhostField
 	GhostVars   map[string]*GhostField
 	InitCalls   []*InitCall
